@@ -126,6 +126,37 @@ fn c09_send_fault_scripts() {
     }
 }
 
+/// source that delivers a prefix of a message and then fails the same way on EVERY call (a stalled non-blocking peer)
+struct StalledSrc { data: [u8; 3], given: usize, upto: usize, calls: usize, kind: u8 }
+impl Read for StalledSrc {
+    fn read(&mut self, buf: &mut [u8]) -> io::Result<usize> {
+        self.calls += 1;
+        // C09 / C10: "returns an error after a bounded number of pipe calls instead of retrying forever"
+        assert!(self.calls <= 5, "C09,C10: recv keeps calling a pipe that fails every time");
+        if self.given < self.upto && !buf.is_empty() {
+            buf[0] = self.data[self.given];
+            self.given += 1;
+            return Ok(1);
+        }
+        Err(match self.kind { 0 => io::ErrorKind::WouldBlock, 1 => io::ErrorKind::Interrupted, 2 => io::ErrorKind::TimedOut, _ => io::ErrorKind::Other }.into())
+    }
+}
+
+/// C09 / C10: a read error (whatever its kind) surfaces as RecvError::Read after a bounded number of pipe calls
+#[kani::proof]
+#[kani::unwind(8)]
+fn c10_recv_persistent_read_error() {
+    // BOUNDED: message [2, a, b]; 0..=2 of its bytes arrive, then every read fails with one of four error kinds
+    let data: [u8; 3] = [2, kani::any(), kani::any()];
+    let upto: usize = kani::any();
+    kani::assume(upto <= 2);
+    let kind: u8 = kani::any();
+    kani::assume(kind < 4);
+    let mut rx = IoReceiver::<Msg, _>::io(StalledSrc { data, given: 0, upto, calls: 0, kind }, 3);
+    let r = rx.recv();
+    assert!(matches!(r, Err(RecvError::Read(_))), "C09,C10: a failing pipe did not surface as a read error");
+}
+
 // ---------------------------------------------------------------------------------------------------------------- async
 use core::future::Future;
 use core::pin::Pin;
